@@ -29,8 +29,22 @@
 # define C03_UNPOISON(p, n) ((void)0)
 #endif
 
+// C03_ARENA32: every block comes from an arena mapped below 4 GB (common/verif_arena32.h), for builds in which the containers
+// keep 32-bit pointers (memory managers with ptrUsefulBitCount = 32)
+#ifdef C03_ARENA32
+# include "common/verif_arena32.h"
+#endif
+
 namespace c03 {
 using namespace vf;
+
+#ifdef C03_ARENA32
+inline void* rawAlloc(size_t n) { try { return arena32().alloc(n); } catch (const std::bad_alloc&) { return nullptr; } }
+inline void rawFree(void* p, size_t n) { arena32().release(p, n); }
+#else
+inline void* rawAlloc(size_t n) { return std::malloc(n); }
+inline void rawFree(void* p, size_t) { std::free(p); }
+#endif
 
 struct Rec {
 	Ctx* c = nullptr; Suite* s = nullptr;
@@ -101,8 +115,8 @@ struct Rec {
 		c->stats.evaluations++;
 		c->stats.count("histories");
 		c->stats.count("events", histEvents);
-		for (auto& kv : live) { std::free(reinterpret_cast<void*>(kv.first)); }
-		for (auto& kv : retired) { C03_UNPOISON(reinterpret_cast<void*>(kv.first), kv.second.size); std::free(reinterpret_cast<void*>(kv.first)); }
+		for (auto& kv : live) { rawFree(reinterpret_cast<void*>(kv.first), kv.second.size ? kv.second.size : 1); }
+		for (auto& kv : retired) { C03_UNPOISON(reinterpret_cast<void*>(kv.first), kv.second.size); rawFree(reinterpret_cast<void*>(kv.first), kv.second.size ? kv.second.size : 1); }
 		live.clear(); retired.clear(); liveElems.clear(); atAddr.clear();
 	}
 
@@ -110,7 +124,7 @@ struct Rec {
 	void* alloc(unsigned mgr, size_t size) {
 		if (allocCountdown == 0) { allocCountdown = -1; allocFired = true; c->stats.count("fault.alloc_refused"); throw std::bad_alloc(); }
 		if (allocCountdown > 0) --allocCountdown;
-		void* p = std::malloc(size ? size : 1);
+		void* p = rawAlloc(size ? size : 1);
 		if (!p) throw std::bad_alloc();
 		std::memset(p, 0xCD, size);
 		uint64_t id = nextBlk++;
